@@ -143,11 +143,14 @@ def run(ctx):
     quick = ctx.quick()
     reps = 1 if quick else 6
     vlib.proof_stage(ctx, PROP_FILE, ["tempproto"], extra_targets=["Model/TempFiles.vo", "Gen/TempProto.vo"])
+    timed = False
     try:
-        proto = json.load(open(os.path.join(vlib.COQ, "Gen", "tempproto.json")))["proto"]
+        tp = json.load(open(os.path.join(vlib.COQ, "Gen", "tempproto.json")))
+        proto, timed = tp["proto"], bool(tp.get("select_has_timeout")) and bool(tp.get("handler_flag_first"))
     except Exception:
         proto = "Pcur"
     ctx.coverage["protocol_of_current_tree"] = proto
+    ctx.coverage["select_has_timeout"] = timed
     ok, log = vlib.build_s4()
     if not ok:
         ctx.obligation_broken("build", "s4 binary", log)
@@ -310,7 +313,7 @@ def run(ctx):
         if r["signalled"] and r["latency"] is not None and r["latency"] > bound:
             h["slow"] += 1
             cls = []
-            if k in ("blocked", "in_create_window", "in_register_window", "early"):
+            if not timed and k in ("blocked", "in_create_window", "in_register_window", "early"):
                 # injected worker delays: the coordinator spends its time blocked in select (holding the
                 # read lock) and the handler must win the write lock in the short gaps in between
                 cls = ["sigint_while_coordinator_blocked_on_silent_workers"]
